@@ -6,7 +6,7 @@ here.  The spy only records; the judgement is the direct oracle's (harness/c04.p
 
 One log per run (a run starts at Dynamics.setUp).  Entries, in the order things happened:
 
-  ['post', clock, t, e, name, result, proc]        result: the id returned | 'ValueError' | other exception name
+  ['post', clock, t, e, name, id, proc, exc]       id: the id returned (None if it raised); exc: None | 'ValueError' | other name
   ['postrep', clock, t, dt, e, name, series, proc] start of a postRepeatingEvent call (series = its number in the run)
   ['postrep-exit', series, exc]                    its end; the 'post' entries in between are made by the library itself
   ['unpost', clock, id, fatal, result]             result: the time returned | None | 'KeyError' | ...
@@ -21,7 +21,7 @@ One log per run (a run starts at Dynamics.setUp).  Entries, in the order things 
                                                    a repetition shows as one 'fire' bracket containing one 'rep' bracket
                                                    and, outside the 'rep' bracket, the library's re-post
   ['end', reported_time, clock, pending]           at simulationEnded (before tear-down): metadata TIME, the clock, and
-                                                   the contents of dyn._postedEventFinder as [[id, time, element], ...]
+                                                   the contents of dyn._postedEventFinder as [[id, time, element], ...] (None if unreadable)
 """
 
 
@@ -30,6 +30,10 @@ class Stuck(Exception):
 
 
 def exc_name(e):
+    # the exceptions the property names, by class (a subclass is as good); anything else by its own name
+    for c in (KeyError, ValueError):
+        if isinstance(e, c):
+            return c.__name__
     return type(e).__name__
 
 
@@ -122,11 +126,11 @@ class QueueSpy:
             try:
                 i = o_post(t, p, e, fire, *args, **kw)
             except BaseException as x:
-                spy._add(['post', clock, t, e, name, exc_name(x), spy._pname(p)])
+                spy._add(['post', clock, t, e, name, None, spy._pname(p), exc_name(x)])
                 raise
             cell[0] = i
             spy._ids.append(i)
-            spy._add(['post', clock, t, e, name, i, spy._pname(p)])
+            spy._add(['post', clock, t, e, name, i, spy._pname(p), None])
             return i
 
         def postRepeatingEvent(t, dt, p, e, ef, *args, **kw):
@@ -200,7 +204,10 @@ class QueueSpy:
             del spy._unprobed[:]
             spy._probe(list(spy._ids))
             from epydemic import Dynamics
-            pending = sorted(([i, ev[0], ev[4]] for i, ev in d._postedEventFinder.items()), key=lambda x: (x[1], x[0]))
+            try:        # private state, read for the report and as a second opinion on the sweep above; None if it cannot be read
+                pending = sorted(([i, ev[0], ev[4]] for i, ev in d._postedEventFinder.items()), key=lambda x: (x[1], str(x[0])))
+            except Exception:
+                pending = None
             spy._add(['end', d.metadata().get(Dynamics.TIME), spy._clock(), pending])
             return o_ended(res, *args, **kw)
 
